@@ -947,6 +947,7 @@ func (m *MapPollard) Undo(numAdds uint64, proof Proof, hashes, origPrevRoots []H
 func (m *MapPollard) Prove(proveHashes []Hash) (Proof, error) {
 	m.rwLock.RLock()
 	defer m.rwLock.RUnlock()
+	verifPoint("q.Prove")
 
 	// Check that the targets are proveable.
 	if !m.cached(proveHashes) {
@@ -1004,6 +1005,7 @@ func (m *MapPollard) Prove(proveHashes []Hash) (Proof, error) {
 func (m *MapPollard) VerifyPartialProof(origTargets []uint64, delHashes, proofHashes []Hash, remember bool) error {
 	m.rwLock.Lock()
 	defer m.rwLock.Unlock()
+	verifPoint("q.VerifyPartialProof")
 
 	// Sort targets first. Copy to avoid mutating the original.
 	targets := copySortedFunc(origTargets, uint64Cmp)
@@ -1050,6 +1052,7 @@ func (m *MapPollard) GetMissingPositions(origTargets []uint64) []uint64 {
 
 	m.rwLock.RLock()
 	defer m.rwLock.RUnlock()
+	verifPoint("q.GetMissingPositions")
 
 	// Sort targets first. Copy to avoid mutating the original.
 	targets := copySortedFunc(origTargets, uint64Cmp)
@@ -1083,6 +1086,7 @@ func (m *MapPollard) GetMissingPositions(origTargets []uint64) []uint64 {
 func (m *MapPollard) Verify(delHashes []Hash, proof Proof, remember bool) error {
 	m.rwLock.Lock()
 	defer m.rwLock.Unlock()
+	verifPoint("q.Verify")
 
 	return m.verify(delHashes, proof, remember)
 }
@@ -1253,6 +1257,7 @@ func (m *MapPollard) Prune(hashes []Hash) error {
 func (m *MapPollard) GetRoots() []Hash {
 	m.rwLock.RLock()
 	defer m.rwLock.RUnlock()
+	verifPoint("q.GetRoots")
 
 	roots, _ := m.getRoots()
 	return roots
@@ -1279,6 +1284,7 @@ func (m *MapPollard) getRoots() ([]Hash, []uint64) {
 func (m *MapPollard) GetHash(pos uint64) Hash {
 	m.rwLock.RLock()
 	defer m.rwLock.RUnlock()
+	verifPoint("q.GetHash")
 
 	if m.TotalRows != TreeRows(m.NumLeaves) {
 		pos = translatePos(pos, TreeRows(m.NumLeaves), m.TotalRows)
@@ -1309,6 +1315,7 @@ func (m *MapPollard) getLeafHashPosition(hash Hash) (uint64, bool) {
 func (m *MapPollard) GetLeafPosition(hash Hash) (uint64, bool) {
 	m.rwLock.RLock()
 	defer m.rwLock.RUnlock()
+	verifPoint("q.GetLeafPosition")
 
 	return m.getLeafHashPosition(hash)
 }
@@ -1323,6 +1330,7 @@ func (m *MapPollard) highestPos() uint64 {
 func (m *MapPollard) GetNumLeaves() uint64 {
 	m.rwLock.RLock()
 	defer m.rwLock.RUnlock()
+	verifPoint("q.GetNumLeaves")
 
 	return m.NumLeaves
 }
@@ -1331,6 +1339,7 @@ func (m *MapPollard) GetNumLeaves() uint64 {
 func (m *MapPollard) GetTreeRows() uint8 {
 	m.rwLock.RLock()
 	defer m.rwLock.RUnlock()
+	verifPoint("q.GetTreeRows")
 
 	return m.TotalRows
 }
@@ -1339,6 +1348,7 @@ func (m *MapPollard) GetTreeRows() uint8 {
 func (m *MapPollard) GetStump() Stump {
 	m.rwLock.RLock()
 	defer m.rwLock.RUnlock()
+	verifPoint("q.GetStump")
 
 	return m.getStump()
 }
@@ -1357,6 +1367,7 @@ func (m *MapPollard) getStump() Stump {
 func (m *MapPollard) GetLeafHashPositions(hashes []Hash) []uint64 {
 	m.rwLock.RLock()
 	defer m.rwLock.RUnlock()
+	verifPoint("q.GetLeafHashPositions")
 
 	positions := make([]uint64, len(hashes))
 	for i := range positions {
@@ -1387,6 +1398,7 @@ func NewMapPollardFromRoots(rootHashes []Hash, numLeaves uint64, full bool) MapP
 func (m *MapPollard) Write(w io.Writer) (int, error) {
 	m.rwLock.RLock()
 	defer m.rwLock.RUnlock()
+	verifPoint("q.Write")
 
 	totalBytes := 0
 
